@@ -12,6 +12,7 @@ INVARIANT NonNegative
 INVARIANT SumToOne
 INVARIANT AtLeastOneModel
 INVARIANT BayesRule
+INVARIANT ResetOnlyOnTrueUnderflow
 INVARIANT ModeMixValid
 INVARIANT MixtureMoments
 INVARIANT SpreadForm
